@@ -999,4 +999,218 @@ Section PassOracle.
     exists corr,
       check_from sha init pinit tinit (model_trace_o init tinit steps) 0 (-1) (-1) 0 false = (corr, -1, 0).
   Proof. intros Hs Hw. apply (check_from_model_o steps [] tinit pinit 0 (-1) OInv_init Hs Hw). Qed.
+
+  (** *** the correspondence side with oracle requests *)
+  Fixpoint ctx_nonneg (steps : list step) : Prop :=
+    match steps with
+    | [] => True
+    | st :: rest => match named_of st with Some x => 0 <= x | None => True end /\ ctx_nonneg rest
+    end.
+
+  Lemma ctx_nonneg_app a b : ctx_nonneg (a ++ b) <-> ctx_nonneg a /\ ctx_nonneg b.
+  Proof. induction a as [|st a IH]; simpl; [tauto|]. rewrite IH. tauto. Qed.
+
+  Lemma named_nonneg steps : forall named, (forall x, In x named -> 0 <= x) -> ctx_nonneg steps ->
+    forall x, In x (named_after named steps) -> 0 <= x.
+  Proof.
+    induction steps as [|st steps IH]; intros named Hn Hc x Hx; simpl in *; [apply Hn; exact Hx|].
+    destruct Hc as [Hc1 Hc2].
+    apply (IH (match named_of st with Some z => z :: named | None => named end)); [|exact Hc2|exact Hx].
+    intros y Hy. destruct (named_of st) as [z|]; [destruct Hy as [<-|Hy]; [exact Hc1|apply Hn; exact Hy]|apply Hn; exact Hy].
+  Qed.
+
+  Record KQ (s : state) : Prop := mkKQ {
+    kq_queue : NoDup (keys (queue s));
+    kq_oracle : NoDup (keys (oracle s))
+  }.
+
+  Lemma keys_del_NoDup {K V} `{EqDec K} (k : K) (m : amap K V) : NoDup (keys m) -> NoDup (keys (del k m)).
+  Proof.
+    induction m as [|[k0 v0] m IH]; simpl; intros Hnd; [constructor|].
+    inversion Hnd as [|? ? Hni Hnd']; subst. destruct (eq_dec k k0); [apply IH; exact Hnd'|].
+    simpl. constructor; [|apply IH; exact Hnd'].
+    intros Hin. apply Hni. unfold keys in *. apply in_map_iff in Hin. destruct Hin as ([k1 v1] & Hk & Hin).
+    apply in_del_inv in Hin. apply in_map_iff. exists (k1, v1). tauto.
+  Qed.
+
+  Lemma fold_fset_NoDup {K V E} `{EqDec K} (pp : E -> bool) (kf : E -> K) (vf : E -> V) (l : list E) :
+    forall (m : amap K V), NoDup (keys m) -> NoDup (keys (fold_left (fset pp kf vf) l m)).
+  Proof.
+    induction l as [|e l IH]; intros m Hnd; simpl; [exact Hnd|]. apply IH.
+    unfold fset. destruct (pp e); [apply keys_set_NoDup; exact Hnd|exact Hnd].
+  Qed.
+
+  Lemma KQ_call s cl : KQ s -> KQ (call_state sha s cl).
+  Proof.
+    intros [Hq Ho]. destruct cl as [x dta|x ex]; simpl.
+    - destruct dta; simpl; try (constructor; simpl; [exact Hq|apply keys_del_NoDup; exact Ho]); try (constructor; assumption).
+      destruct (get x (oracle s)); constructor; simpl; try exact Hq; apply keys_del_NoDup; exact Ho.
+    - destruct ex; simpl; constructor; simpl; try assumption. apply keys_del_NoDup; exact Ho.
+  Qed.
+
+  Lemma KQ_calls cs : forall s, KQ s -> KQ (calls_state sha s cs).
+  Proof. induction cs as [|cl cs IH]; intros s K; simpl; [exact K|]. apply IH. apply KQ_call. exact K. Qed.
+
+  Lemma KQ_step used s st : Base used s -> sane allP used [st] -> KQ s -> KQ (step_state sha s st).
+  Proof.
+    intros Hb Hs [Hq Ho]. unfold step_state. destruct st as [c n orc capok txh svc|t a started|cs].
+    - rewrite exec_req. destruct (req_ok c capok orc svc); [destruct (interval_ok (height s) n)|]; simpl;
+        constructor; simpl; try assumption. apply keys_set_NoDup. exact Hq.
+    - destruct Hs as [Htz _]. unfold exec_step. rewrite (begin_block_nz sha s t a started Htz). simpl.
+      constructor; simpl; [apply NoDup_keys_filter; exact Hq|apply fold_fset_NoDup; exact Ho].
+    - unfold exec_step. rewrite (exec_calls_nz sha cs s (b_t _ _ Hb)). simpl. apply KQ_calls. constructor; assumption.
+  Qed.
+
+  Lemma KQ_run steps : forall used s, Base used s -> sane allP used steps -> KQ s -> KQ (run sha s steps).
+  Proof.
+    induction steps as [|st steps IH]; intros used s Hb Hs K; [exact K|].
+    apply sane_cons in Hs. destruct Hs as [Hs1 Hs2]. simpl.
+    apply (IH (used_step used st)); [apply (Base_step sha allP); assumption|exact Hs2|apply (KQ_step used); assumption].
+  Qed.
+
+  Lemma KQ_init : KQ init.
+  Proof. constructor; simpl; constructor. Qed.
+
+  Definition has_key (orc : amap Z request) (x : Z) : bool :=
+    match get x orc with Some _ => true | None => false end.
+
+  Lemma has_key_in orc x : has_key orc x = true <-> In x (keys orc).
+  Proof.
+    unfold has_key. split.
+    - destruct (get x orc) as [r|] eqn:Hg; [|discriminate]. intros _. apply get_In in Hg.
+      unfold keys. apply in_map_iff. exists (x, r). auto.
+    - intros Hin. unfold keys in Hin. apply in_map_iff in Hin. destruct Hin as ([x' r] & Hx & Hin). simpl in Hx. subst x'.
+      destruct (in_get _ _ _ Hin) as (v' & ->). reflexivity.
+  Qed.
+
+  Lemma count_some_map orc L :
+    count_some (map (fun x => (x, get x orc)) L) = Z.of_nat (length (filter (has_key orc) L)).
+  Proof.
+    unfold count_some. f_equal. induction L as [|x L IH]; simpl; [reflexivity|].
+    unfold has_key at 1. destruct (get x orc); simpl; rewrite IH; reflexivity.
+  Qed.
+
+  Lemma filter_count_nodup (K M : list Z) (f : Z -> bool) :
+    NoDup M -> NoDup K -> (forall x, In x K -> In x M) -> (forall x, f x = true <-> In x K) ->
+    length (filter f M) = length K.
+  Proof.
+    intros HM HK Hsub Hf.
+    assert (HA : NoDup (filter f M)) by (apply NoDup_filter; exact HM).
+    apply Nat.le_antisymm.
+    - apply NoDup_incl_length; [exact HA|]. intros x Hx. apply filter_In in Hx. apply Hf. tauto.
+    - apply NoDup_incl_length; [exact HK|]. intros x Hx. apply filter_In. split; [apply Hsub; exact Hx|apply Hf; exact Hx].
+  Qed.
+
+  Lemma item_plain_ctx hist ts it : TInv sha hist ts -> In it (ts_items ts) ->
+    q_oracle (t_r0 it) = false -> q_ctx (t_r0 it) = -1.
+  Proof.
+    intros [_ _ _ Hit] Hin Hpl.
+    destruct (Hit it Hin) as (pre & c & n & orc & capok & txh & svc & post & _ & _ & _ & Hr0 & _).
+    rewrite Hr0 in Hpl |- *. unfold new_req in *. simpl in *. rewrite Hpl. reflexivity.
+  Qed.
+
+  Lemma filter_ctxs_octxs orc (l : list titem) :
+    (forall it, In it l -> q_oracle (t_r0 it) = false -> has_key orc (q_ctx (t_r0 it)) = false) ->
+    filter (has_key orc) (map (fun it => q_ctx (t_r0 it)) l) = filter (has_key orc) (octxs l).
+  Proof.
+    induction l as [|it l IH]; intros Hpl; [reflexivity|].
+    unfold octxs. simpl. fold (octxs l).
+    rewrite filter_app, <- IH by (intros it' Hin; apply Hpl; right; exact Hin).
+    destruct (q_oracle (t_r0 it)) eqn:Ho; simpl.
+    - destruct (has_key orc (q_ctx (t_r0 it))); reflexivity.
+    - rewrite (Hpl it (or_introl eq_refl) Ho). reflexivity.
+  Qed.
+
+  Lemma corr_model_o hist p st ts' :
+    let s' := step_state sha (run sha init hist) st in
+    OInv (hist ++ [st]) ts' p -> s' = run sha init (hist ++ [st]) -> KQ s' ->
+    (forall x, In x (ts_ctxs ts') -> 0 <= x) ->
+    step_outcome sha (run sha init hist) st <> Abort ->
+    corr_step (step_outcome sha (run sha init hist) st) s' st
+              (mobsf s' (outcome_code (step_outcome sha (run sha init hist) st)) ts' (facts_of st)) = true.
+  Proof.
+    intros s' O Hs' [Hq Ho] Hnn Hna. unfold corr_step, mobsf, obs_of.
+    cbn [o_code o_queue o_reads o_oracle].
+    apply orb_true_iff. right.
+    repeat (apply andb_true_intro; split).
+    - assert (Hc : outcome_code (step_outcome sha (run sha init hist) st) =? outcome_code (step_outcome sha (run sha init hist) st) = true) by apply Z.eqb_refl.
+      destruct st as [c n orc capok txh svc|t a started|cs]; try exact Hc.
+      assert (Hok : step_outcome sha (run sha init hist) (Calls cs) = Ok).
+      { unfold step_outcome, exec_step in *. destruct (exec_calls sha (run sha init hist) cs) as [[? ?]|]; [reflexivity|]. simpl in Hna. congruence. }
+      rewrite Hok. reflexivity.
+    - apply Z.eqb_refl.
+    - apply forallb_forall. intros [[d id] r] Hin. apply eqb_true_iff. apply get_nodup; assumption.
+    - apply forallb_forall. intros [id v] Hin. apply in_map_iff in Hin. destruct Hin as (id' & He & _).
+      inversion He; subst. apply eqb_refl.
+    - apply forallb_forall. intros [x v] Hin. apply in_map_iff in Hin. destruct Hin as (x' & He & _).
+      inversion He; subst. apply eqb_refl.
+    - rewrite count_some_map. apply Z.eqb_eq. f_equal. unfold ctxs_of.
+      assert (Hkeys : forall x, In x (keys (oracle s')) -> In x (octxs (ts_items ts'))).
+      { intros x Hx. unfold keys in Hx. apply in_map_iff in Hx. destruct Hx as ([x' r] & Hxx & Hin). simpl in Hxx. subst x'.
+        rewrite Hs' in Hin. destruct (o_oi _ _ _ O x r Hin) as (Hxr & Hor & it & Hit & Hr).
+        rewrite Hxr, <- Hr. apply octxs_in; [exact Hit|rewrite Hr; exact Hor]. }
+      rewrite filter_ctxs_octxs.
+      + rewrite <- (map_length fst (oracle s')). fold (keys (oracle s')).
+        apply (filter_count_nodup (keys (oracle s')) (octxs (ts_items ts')) (has_key (oracle s')));
+          [exact (o_uniq _ _ _ O)|exact Ho|exact Hkeys|apply has_key_in].
+      + intros it Hin Hpl. destruct (has_key (oracle s') (q_ctx (t_r0 it))) eqn:Hk; [|reflexivity]. exfalso.
+        apply has_key_in in Hk. apply Hkeys in Hk. apply (o_octx _ _ _ O) in Hk. apply Hnn in Hk.
+        rewrite (item_plain_ctx _ _ it (o_t _ _ _ O) Hin Hpl) in Hk. lia.
+  Qed.
+
+  (** the whole of [check_from] on the model's own trace, oracle requests included *)
+  Lemma check_from_model_full rest : forall hist ts p i,
+    OInv hist ts p -> sane allP [] (hist ++ rest) -> wf_env [] [] (hist ++ rest) -> ctx_nonneg (hist ++ rest) ->
+    check_from sha (run sha init hist) p ts (model_trace_o (run sha init hist) ts rest) i (-1) (-1) 0 false
+    = (-1, -1, 0).
+  Proof.
+    induction rest as [|st rest IH]; intros hist ts p i O Hs Hw Hc.
+    - reflexivity.
+    - assert (Hs1 : sane allP [] (hist ++ [st])).
+      { replace (hist ++ st :: rest) with ((hist ++ [st]) ++ rest) in Hs by (rewrite <- app_assoc; reflexivity).
+        apply sane_app in Hs. tauto. }
+      assert (Hw1 : wf_env (named_after [] hist) (nos_after [] hist) [st]).
+      { apply wf_env_app in Hw. destruct Hw as [_ Hw]. simpl in Hw |- *. tauto. }
+      assert (Hc1 : ctx_nonneg (hist ++ [st])).
+      { replace (hist ++ st :: rest) with ((hist ++ [st]) ++ rest) in Hc by (rewrite <- app_assoc; reflexivity).
+        apply ctx_nonneg_app in Hc. tauto. }
+      destruct (OInv_step hist ts p st O Hs1 Hw1) as (p' & Hprop & O').
+      pose proof (proj1 (sane_snoc allP hist st) Hs1) as [Hs_h Hs_st].
+      pose proof (Base_run sha allP hist [] init Base_init Hs_h) as Hb.
+      pose proof (no_abort sha _ _ st Hb Hs_st) as Hna.
+      pose proof (KQ_run (hist ++ [st]) [] init Base_init Hs1 KQ_init) as K'.
+      assert (Hnn : forall x, In x (ts_ctxs (track_next sha (run sha init hist) ts st
+                                    (accepted_of (step_outcome sha (run sha init hist) st)))) -> 0 <= x).
+      { intros x Hx. rewrite (o_named _ _ _ O') in Hx.
+        apply (named_nonneg (hist ++ [st]) [] (fun y Hy => match Hy with end) Hc1 x Hx). }
+      pose proof (corr_model_o hist p' st _ O' (eq_sym (run_snoc sha hist st))) as Hcorr.
+      cbv zeta in Hcorr. rewrite <- (run_snoc sha hist st) in Hcorr. specialize (Hcorr K' Hnn Hna).
+      cbn [model_trace_o check_from].
+      unfold step_outcome, step_state in *.
+      destruct (exec_step sha (run sha init hist) st) as [[out s'] evs] eqn:He. cbn [fst snd] in *.
+      assert (Hs' : s' = run sha init (hist ++ [st])).
+      { rewrite run_snoc. unfold step_state. rewrite He. reflexivity. }
+      rewrite Hs' in *. rewrite Hcorr. cbn [negb andb]. rewrite Hprop.
+      fold (agree_of st (mobsf (run sha init (hist ++ [st])) (outcome_code out)
+                               (track_next sha (run sha init hist) ts st (accepted_of out)) (facts_of st)) out).
+      replace (agree_of st (mobsf (run sha init (hist ++ [st])) (outcome_code out)
+                               (track_next sha (run sha init hist) ts st (accepted_of out)) (facts_of st)) out)
+        with true.
+      2:{ symmetry. unfold agree_of, mobsf, obs_of. cbn [o_code].
+          destruct out; [| |contradiction]; destruct st as [| |[|cl cs]]; reflexivity. }
+      change (match out with Ok => true | _ => false end) with (accepted_of out).
+      unfold track_step. cbn [negb].
+      pose proof (TInv_views sha _ _ (outcome_code out) (facts_of st) (o_t _ _ _ O')) as Hv.
+      unfold mobsf. rewrite Hv. cbn [Z.eqb Z.ltb Z.compare andb negb orb].
+      replace (match out with Abort => true | _ => false end) with false by (destruct out; [reflexivity|reflexivity|contradiction]).
+      apply (IH (hist ++ [st]) _ p' (i + 1) O').
+      + rewrite <- app_assoc. exact Hs.
+      + rewrite <- app_assoc. exact Hw.
+      + rewrite <- app_assoc. exact Hc.
+  Qed.
+
+  Lemma model_passes_check_oracle_full_lemma steps :
+    sane allP [] steps -> wf_env [] [] steps -> ctx_nonneg steps ->
+    check_from sha init pinit tinit (model_trace_o init tinit steps) 0 (-1) (-1) 0 false = (-1, -1, 0).
+  Proof. intros Hs Hw Hc. apply (check_from_model_full steps [] tinit pinit 0 OInv_init Hs Hw Hc). Qed.
 End PassOracle.
